@@ -445,7 +445,73 @@ func (g *progGen) eachStmt(depth int) *tw.Stmt {
 	return st
 }
 
-func (g *progGen) forStmt(depth int) *tw.Stmt {
+// forNoInit generates a @for without an init clause: no loop variable, the loop
+// is a block all the same. Termination by construction: a false condition, a
+// @break that ends the first pass, or a visible integer stepped by the post clause.
+func (g *progGen) forNoInit(depth int) []*tw.Stmt {
+	st := &tw.Stmt{Kind: tw.SFor}
+	var pre []*tw.Stmt
+	g.Feat["for-no-init"]++
+	body := func(avoid string) []*tw.Stmt {
+		g.push()
+		g.loopDepth++
+		wasEach := g.eachBody
+		g.eachBody = false
+		b := g.blockAvoiding(depth-1, avoid)
+		g.eachBody = wasEach
+		g.loopDepth--
+		g.pop()
+		return b
+	}
+	var counters []string
+	for _, n := range assignNames {
+		if k, ok := g.visibleKind(n); ok && k == refint.KInt {
+			counters = append(counters, n)
+		}
+	}
+	form := rapid.IntRange(0, 2).Draw(g.rt, "noInitForm")
+	if form == 2 && len(counters) == 0 {
+		form = 1
+	}
+	switch form {
+	case 0: // never entered
+		st.Cond = rapid.SampledFrom([]*tw.Expr{tw.Bool(false), tw.Bin("<", intLit(2), intLit(1)), tw.Nil()}).Draw(g.rt, "falseCond")
+		st.Body = body("")
+	case 1: // one pass, ended by @break; condition absent or true
+		if rapid.Bool().Draw(g.rt, "condPresent") {
+			st.Cond = tw.Bool(true)
+		}
+		// no @continue in this body: the @break at its end must be reached
+		wCtl := g.wCtl
+		g.wCtl = 0
+		st.Body = append(body(""), &tw.Stmt{Kind: tw.SBreak})
+		g.wCtl = wCtl
+	default: // a visible integer counts up to a bound a few steps away (its value inside the loop only)
+		n := rapid.SampledFrom(counters).Draw(g.rt, "counter")
+		steps := rapid.IntRange(0, 3).Draw(g.rt, "steps")
+		// bound = current value + steps, fixed before the loop in a fresh name
+		bound := "lim" + fmt.Sprint(g.marker)
+		g.marker++
+		g.bind(bound, refint.KInt)
+		pre = []*tw.Stmt{tw.Assign(bound, tw.Bin("+", tw.Var(n), intLit(int64(steps))))}
+		st.Cond = tw.Bin("<", tw.Var(n), tw.Var(bound))
+		st.PostName, st.Post = n, tw.Bin("+", tw.Var(n), intLit(1))
+		st.Body = body(n)
+	}
+	if rapid.IntRange(0, 2).Draw(g.rt, "forElse") == 0 {
+		st.HasElse = true
+		g.push()
+		st.Else = g.block(depth-1, true)
+		g.pop()
+	}
+	g.Feat["for"]++
+	return append(pre, st)
+}
+
+func (g *progGen) forStmt(depth int) []*tw.Stmt {
+	if rapid.IntRange(0, 5).Draw(g.rt, "noInit") == 0 {
+		return g.forNoInit(depth)
+	}
 	name := rapid.SampledFrom([]string{"i", "j", "a"}).Draw(g.rt, "forVar")
 	a := rapid.IntRange(-3, 3).Draw(g.rt, "forFrom")
 	b := rapid.IntRange(-3, 3).Draw(g.rt, "forTo")
@@ -499,7 +565,7 @@ func (g *progGen) forStmt(depth int) *tw.Stmt {
 	if g.loopDepth > 0 {
 		g.Feat["nested-loop"]++
 	}
-	return st
+	return []*tw.Stmt{st}
 }
 
 func (g *progGen) ctl() *tw.Stmt {
@@ -584,7 +650,7 @@ func (g *progGen) block(depth int, _ bool) []*tw.Stmt {
 		case x < 4+g.wIf+g.wLoop:
 			if depth > 0 {
 				if rapid.IntRange(0, 2).Draw(g.rt, "loopKind") == 0 {
-					out = append(out, g.forStmt(depth))
+					out = append(out, g.forStmt(depth)...)
 				} else {
 					out = append(out, g.eachStmt(depth))
 				}
